@@ -30,6 +30,7 @@ import (
 type txn struct {
 	Res     int    `json:"res"`
 	Inb     bool   `json:"inb,omitempty"`
+	RType   int32  `json:"rtype,omitempty"`
 	Batch   uint32 `json:"batch"`
 	Kind    int    `json:"kind"` // 0 pass, 1 block (custom chain only), 2 rule evaluation panics
 	Custom  bool   `json:"custom,omitempty"`
@@ -96,6 +97,7 @@ func genConc(r *rng.R, id int) *concInput {
 		var ts []txn
 		for j := 0; j < n; j++ {
 			t := txn{Res: r.Intn(2), Inb: r.Chance(1, 2), Batch: uint32(r.PickI(1, 1, 2, 3, 0)), Custom: r.Chance(1, 2), Hold: int(r.PickI(0, 0, 1, 2, 5))}
+			t.RType = int32(r.PickI(0, 0, 1, 2, 6)) // goroutines classify the shared resource names differently
 			switch x := r.Intn(10); {
 			case x < 6:
 				t.Kind = 0
@@ -202,6 +204,9 @@ func runConc(id int, r *rng.R, clk *vclock.Clock) (*concInput, []chainh.Failure,
 					tt = base.Inbound
 				}
 				opts := []sentinel.EntryOption{sentinel.WithTrafficType(tt), sentinel.WithBatchCount(t.Batch)}
+				if t.RType != 0 {
+					opts = append(opts, sentinel.WithResourceType(base.ResourceType(t.RType)))
+				}
 				if t.Custom {
 					opts = append(opts, sentinel.WithSlotChain(sc), sentinel.WithFlag(int32(t.Kind)), sentinel.WithArgs(int64(gi)))
 				} else if t.Kind == 2 {
